@@ -11,7 +11,9 @@
 From Coq Require Import String List ZArith Bool.
 Require Import Blots.Num Blots.gen.Builtins Blots.Ast Blots.Value Blots.Outcome Blots.Binop
                Blots.Env Blots.Eval Blots.BuiltinsHof Blots.Program Blots.EvalInst
-               Blots.proofs.Closures Blots.proofs.StoreMono Blots.proofs.Closed Blots.proofs.CallSite.
+               Blots.EvalFull
+               Blots.proofs.Closures Blots.proofs.StoreMono Blots.proofs.Closed Blots.proofs.CallSite
+               Blots.proofs.FullAgree.
 Import ListNotations.
 Open Scope string_scope.
 
@@ -120,6 +122,37 @@ Check C04_call_result_closed : forall release d fr this f args st r st',
   AD release binop_impl builtin_impl d fr this f args st = (r, st') ->
   store_le st st' /\ (forall v, r = Ok v -> closed_value st' v).
 Print Assumptions C04_call_result_closed.
+
+(* ... and the same two theorems for the evaluator with EVERY transcribed built-in (EvalFull.v):
+   the function may call sort_by / group_by / count_by with callbacks and any list, string,
+   record or aggregate built-in *)
+Theorem C04_call_site_independent_full : forall release d fr1 fr2 this f args st,
+  lookup fr1 "inputs" = lookup fr2 "inputs" ->
+  (forall v, lookup fr1 "inputs" = Some v -> closed_value st v) ->
+  closed_value st this -> closed_value st f -> closed_list st args ->
+  AD release binop_impl builtin_full d fr1 this f args st =
+  AD release binop_impl builtin_full d fr2 this f args st.
+Proof. exact call_site_independent_full. Qed.
+Check C04_call_site_independent_full : forall release d fr1 fr2 this f args st,
+  lookup fr1 "inputs" = lookup fr2 "inputs" ->
+  (forall v, lookup fr1 "inputs" = Some v -> closed_value st v) ->
+  closed_value st this -> closed_value st f -> closed_list st args ->
+  AD release binop_impl builtin_full d fr1 this f args st =
+  AD release binop_impl builtin_full d fr2 this f args st.
+Print Assumptions C04_call_site_independent_full.
+
+Theorem C04_call_result_closed_full : forall release d fr this f args st r st',
+  (forall v, lookup fr "inputs" = Some v -> closed_value st v) ->
+  closed_value st this -> closed_value st f -> closed_list st args ->
+  AD release binop_impl builtin_full d fr this f args st = (r, st') ->
+  store_le st st' /\ (forall v, r = Ok v -> closed_value st' v).
+Proof. exact call_result_closed_full. Qed.
+Check C04_call_result_closed_full : forall release d fr this f args st r st',
+  (forall v, lookup fr "inputs" = Some v -> closed_value st v) ->
+  closed_value st this -> closed_value st f -> closed_list st args ->
+  AD release binop_impl builtin_full d fr this f args st = (r, st') ->
+  store_le st st' /\ (forall v, r = Ok v -> closed_value st' v).
+Print Assumptions C04_call_result_closed_full.
 
 (* non-vacuity: `k = 3; f = x => x + k` and a curried closure are hereditarily closed, and the
    theorem's conclusion is observed on two very different call sites *)
